@@ -348,6 +348,9 @@ func (ex *Exec) selectStmt(fr *Frame, x *ssa.Select) Value {
 	ts := ex.ts
 	i64 := SInt(64, true)
 	n := len(x.States)
+	if x.Blocking {
+		ex.bumpSite(x) // bound on re-entering the same blocking select (poll / retry loops)
+	}
 	chans := make([]*ChanV, n)
 	sendVals := make([]Value, n)
 	for i, st := range x.States {
@@ -488,6 +491,11 @@ func (ex *Exec) selectStmt(fr *Frame, x *ssa.Select) Value {
 func (ex *Exec) goStmt(fnv Value, args []Value) {
 	if ex.conc != nil {
 		ex.concGo(fnv, args)
+		return
+	}
+	if ex.h.Opts["go"] == "defer" {
+		// the goroutine is not run: it is recorded; the harness runs it explicitly (verif.RunGo)
+		ex.deferredGo = append(ex.deferredGo, func() { ex.invoke(fnv, args, nil) })
 		return
 	}
 	nframes := len(ex.frames)
